@@ -17,7 +17,10 @@
        file or garbage a ParsingError; no repos.conf at all falls back to the shipped one.
      * make.conf (file or directory, read after make.globals): bash assignments with ${VAR}
        substitution against everything read so far, `source` of further files, incremental
-       variables (FEATURES, USE, ..) are appended to the value they had before the FILE was read.
+       variables (FEATURES, USE, ..) are appended to the value they had before the FILE was read;
+       load_make_conf's flags: a missing file is an error only when required, a directory only
+       without allow_recurse, `source` only without allow_sourcing; a failing file leaves the
+       caller's dictionary as the files before it left it.
      * the sections: world/system/installed/versioned-installed + user sets, profile (symlink,
        plain directory, override; user profile), vdb, ebuild-repo-common, per repo conf:/cache:/
        repo section/sync:, repo-stack + vuln when a repo is registered, the livefs domain.
@@ -199,27 +202,34 @@ RECURSIVE Expand(_, _, _)
 Expand(ws, new, base) ==
   IF ws = <<>> THEN <<>>
   ELSE (IF Head(ws).ref THEN Lookup(new, base, Head(ws).v) ELSE <<Head(ws).v>>) \o Expand(Tail(ws), new, base)
-RECURSIVE Eval(_, _, _, _)
-Eval(stmts, st, base, inc) ==
+RECURSIVE Eval(_, _, _, _, _)
+Eval(stmts, st, base, inc, src) ==
   IF stmts = <<>> \/ st.err # "" THEN st
   ELSE LET x == Head(stmts)
            st1 == CASE x.op = "set" -> [st EXCEPT !.new = Merge([v \in {x.var} |-> Expand(x.words, st.new, base)], @)]
-                    [] x.op = "source" -> IF x.var \in DOMAIN inc THEN Eval(inc[x.var], st, base, inc)
-                                          ELSE [st EXCEPT !.err = "ParsingError"]
+                    [] x.op = "source" -> IF src /\ x.var \in DOMAIN inc THEN Eval(inc[x.var], st, base, inc, src)
+                                          ELSE [st EXCEPT !.err = "ParsingError"]     \* not a command / no such file
                     [] OTHER -> [st EXCEPT !.err = "ParsingError"]
-       IN Eval(Tail(stmts), st1, base, inc)
+       IN Eval(Tail(stmts), st1, base, inc, src)
 \* one file of make.conf: substitutions see everything read so far; what the file assigned is laid
-\* over it, incremental variables appended to the value they had before the file
-LoadFile(m, stmts, inc) ==
+\* over it, incremental variables appended to the value they had before the file.  A file that
+\* fails leaves the variables as the files before it left them.
+LoadFile(m, stmts, inc, src, incr) ==
   IF m.err # "" THEN m
-  ELSE LET r == Eval(stmts, [err |-> "", new |-> EmptyFn], m.env, inc) IN
+  ELSE LET r == Eval(stmts, [err |-> "", new |-> EmptyFn], m.env, inc, src) IN
        IF r.err # "" THEN [m EXCEPT !.err = r.err]
-       ELSE LET nv == [k \in DOMAIN r.new |-> IF k \in Incrementals /\ k \in DOMAIN m.env THEN m.env[k] \o r.new[k] ELSE r.new[k]]
+       ELSE LET nv == [k \in DOMAIN r.new |-> IF incr /\ k \in Incrementals /\ k \in DOMAIN m.env THEN m.env[k] \o r.new[k] ELSE r.new[k]]
             IN [m EXCEPT !.env = Merge(nv, m.env)]
-RECURSIVE LoadFiles(_, _, _)
-LoadFiles(m, fs, inc) == IF fs = <<>> THEN m ELSE LoadFiles(LoadFile(m, Head(fs).stmts, inc), Tail(fs), inc)
+RECURSIVE LoadFiles(_, _, _, _, _)
+LoadFiles(m, fs, inc, src, incr) == IF fs = <<>> THEN m ELSE LoadFiles(LoadFile(m, Head(fs).stmts, inc, src, incr), Tail(fs), inc, src, incr)
 McFiles(mc) == IF mc.kind = "absent" THEN <<>> ELSE IF mc.kind = "file" THEN <<mc.frags[1]>> ELSE VisibleSorted(mc.frags)
-LoadMakeConf(globals, mc, inc) == LoadFiles([err |-> "", env |-> globals], McFiles(mc), inc)
+\* PortageConfig.load_make_conf(vars, path, allow_sourcing=src, required=, allow_recurse=recurse, incrementals=incr)
+LoadMakeConfV(env0, mc, inc, src, required, recurse, incr) ==
+  IF mc.kind = "absent" THEN [err |-> IF required THEN "ParsingError" ELSE "", env |-> env0]
+  ELSE IF mc.kind = "dir" /\ ~recurse THEN [err |-> "ParsingError", env |-> env0]       \* a directory is not a file
+  ELSE LoadFiles([err |-> "", env |-> env0], McFiles(mc), inc, src, incr)
+\* as PortageConfig.__init__ reads the user's make.conf on top of make.globals
+LoadMakeConf(globals, mc, inc) == LoadMakeConfV(globals, mc, inc, TRUE, FALSE, TRUE, TRUE)
 
 \* FEATURES as the set optimize_incrementals leaves: the last mention of a flag wins, nothing before -* survives
 NegKey(w) == CASE w = "-usersync" -> "usersync" [] w = "-buildpkg" -> "buildpkg" [] w = "-foo" -> "foo"
